@@ -228,7 +228,18 @@ double toDouble(const std::string& s, char dec, char scientificNotation)
 {
   if (!isDecimalNumber(s, dec, scientificNotation))
     throw Exception("TextTools::toDouble(). Invalid number specification: " + s);
-  return fromString<double>(s);
+  if (dec == '.' && scientificNotation == 'e')
+    return fromString<double>(s);
+  // The stream only understands '.' and 'e':
+  std::string t(s);
+  for (auto& c : t)
+  {
+    if (c == dec)
+      c = '.';
+    else if (c == scientificNotation)
+      c = 'e';
+  }
+  return fromString<double>(t);
 }
 
 /******************************************************************************/
